@@ -123,8 +123,6 @@ def run(ctx, res):
         inp = input_slice()
         H = Header(inp)
         outs = I.run(d, [inp])
-        from ..core import arithmetic
-        arithmetic(res, I, d)
         # ---- must accept
         for fs, p in wf_cases(H, name):
             for s, k, v in outs:
@@ -216,6 +214,9 @@ def run(ctx, res):
                             n[0] += 1
                             pc = s2.pc + conj
                             res.ob(same_view(pc, r, SliceV(inp.base, 12, H.len - p)), "read-row", m, "App::data() is the view [12, len - padding) of the buffer", detail=repr(r)[:200], pc=pc, entry=d)
+        # the parser's and the accessors' own arithmetic (they were run in the state that constructed the value)
+        from ..core import arithmetic
+        arithmetic(res, I, d)
         for sp, fn, what in I.unmodelled:
             res.unmodelled(fn, what, sp)
     # ---- report block on its own, unknown packet
